@@ -182,6 +182,10 @@ def mask_file(regionfile, infile, outfile, negate=False):
     else:
         data = im[0].data
 
+    # masked pixels are set to nan, which an integer image cannot hold
+    if not np.issubdtype(data.dtype, np.floating):
+        data = data.astype(np.float64)
+
     # print(data.shape)
     if len(data.shape) == 3:
         for plane in range(data.shape[0]):
